@@ -48,14 +48,15 @@ def affine(draw, pname):
 @st.composite
 def case(draw, tier):
     nops = draw(st.integers(1, 8))
+    nm = draw(st.sampled_from([2, 2, 3, 3, 4, 5]))      # few modes -> dense dependency structure (diamonds, chains)
     params = draw(st.lists(S.ident(for_param=True), min_size=1, max_size=3, unique=True))
     items = []
     forms = {p: set() for p in params}
     pending = list(params)
     for i in range(nops):
         op = draw(st.sampled_from(_OPS))
-        k = draw(st.sampled_from([1, 1, 2]))
-        modes = draw(st.lists(st.integers(0, 4), min_size=k, max_size=k, unique=True))
+        k = draw(st.sampled_from([1, 1, 2, 2]))
+        modes = draw(st.lists(st.integers(0, nm - 1), min_size=k, max_size=k, unique=True))
         nargs = draw(st.integers(0, 2))
         if pending and (nops - i) <= len(pending):
             nargs = max(nargs, 1)
